@@ -16,7 +16,7 @@ LEVEL_TEXT = ("Theorems (Coq, every n >= 1, every interval, every real z_i, pp_i
               "by sum |c_k| delta_k). NOT theorems: that the Newton iteration from the Chebyshev-like guess converges, for every n, to the distinct roots of P_n, "
               "and that the weights are positive (the classical Gauss theorem applied to the computed doubles). These clauses are decided on the "
               "implementation by exhaustive enumeration of n (thorough: every n = 1..512 and a sample up to 4000; quick: every n = 1..64 and a sample up to 512) "
-              "on intervals including reversed and far from the origin: ordering, interior, symmetry, sign and sum of the weights, and exactness on "
+              "on intervals including reversed, far from the origin, of every magnitude (ladder 1e-305 .. 1e300, subnormal lengths, end points up to DBL_MAX) and, through the integration overloads, with end points 1 .. 1e6 ulps apart: ordering, interior, symmetry, sign and sum of the weights, and exactness on "
               "every monomial and Legendre-basis polynomial of degree <= min(2n-1, 60) with the verified moment checker run in exact integer arithmetic on the "
               "produced doubles for n <= 40 (floats with math.fsum above) against an a-priori rounding slack.")
 LEVEL_NOTE = ("Coq 8.16.1 kernel; theorems over R (standard-library real axioms, Coquelicot for RInt); hand-written model tied by differential correspondence "
@@ -25,8 +25,10 @@ LEVEL_NOTE = ("Coq 8.16.1 kernel; theorems over R (standard-library real axioms,
               "std::cos / M_PI modelled by OCaml's cos (glibc) and the literal 0x1.921fb54442d18p+1")
 TOL = (1e-13, 0.0)
 TRUSTED = ["std::cos is glibc's cos on both sides; M_PI is the literal 3.14159265358979323846",
-           "S4 slack for 'exact to rounding' (a priori, see checks/C12.py: W(n) = (8 ln n + 8)*1e-14 + 32 n 2^-53 relative to |b-a| max|g|, plus node-position terms)"]
-ASSUMPTIONS = ["intervals are generated with |b-a| >= 1e-4*max(|a|,|b|) so that the n nodes are distinct doubles (node spacing ~ 6|b-a|/n^2 against an ulp of max(|a|,|b|))",
+           "S4 slack for 'exact to rounding' (a priori, see checks/C12.py: W(n) = (8 ln n + 8)*1e-14 + 32 n 2^-53 relative to |b-a| max|g|, plus node-position terms, plus (n+2) subnormal quanta where results are subnormal)"]
+ASSUMPTIONS = ["rule requests are generated with |b-a| >= 1e-4*max(|a|,|b|) (and >= 2e6 subnormal quanta, n <= 64 there) so that the n nodes are distinct doubles (node spacing ~ 6|b-a|/n^2 against an ulp of max(|a|,|b|)); "
+               "intervals whose end points are 1 .. 1e6 ulps or 1e-16 .. 1e-6 relative apart are driven through the three integration overloads and the sum of the weights only (agreement, exactness, sum w = b-a), at every magnitude from 0 and the subnormals to 1e300",
+               "magnitudes: every decade ladder 1e-305 .. 1e300 in every position relative to the origin, subnormal lengths, and end points up to DBL_MAX; requests whose a+b or b-a is not a double are the region of K-C12-1",
                "convergence of the Newton iteration to distinct roots and positivity of the weights are not theorems; they are enumerated on the implementation (S4)"]
 
 EPS = 2.0 ** -53
@@ -288,6 +290,9 @@ A-priori slack for 'integrates exactly to rounding' (fixed before any run):
    weight by twice that, and the final sum over n weights adds n 2^-53: 32 n 2^-53 in total;
  * node positions: |dt_i| <= 1e-14 + 2*2^-53*max(|a|,|b|)/|hw| in units of the reference interval (Newton + the two roundings of
    x_middle -/+ x_half_width*z); a test function g contributes sum w_i |g'| |dx_i|;
+ * magnitudes outside 2^-100 .. 2^100: the produced doubles are rescaled exactly by a power of two (units of 2^e, max(|a|,|b|) ~ 1) and the same
+   bounds are used; where results can be subnormal (max(|a|,|b|) < 2^-900) each node, weight and product value*weight carries one absolute
+   rounding of at most the quantum q = 2^-1074: 4q per node sum, 2q/|hw| in dt, (n+2) q max|g| on a weighted sum (+ (n+2) q for the products);
  * the reference side is exact (integers) for n <= 40; in floating point (n > 40) evaluating x^k costs (k+2) 2^-53 relative and the
    three-term recurrence for P_k at most (k+1)^2 2^-53 absolute.
 """
@@ -458,6 +463,7 @@ def predicates(c, io):
                     dt = NEWTON + 2 * EPS * M / hw + 2 * q / hw
                     # moment_checker_sound: |rule - integral| <= sum |c_k| delta_k, plus Horner evaluation and summation rounding
                     slack = sum(abs(ck) * M ** k * (L * (W(n) + k * dt * hw / M + (2 * len(co) + n + 2) * EPS) + (n + 2) * q) for k, ck in enumerate(co))
+                    slack += (n + 2) * q      # each product value*weight is rounded to the quantum whatever the size of the value
                 else: slack = 0.0
                 if not (abs(Fraction(v[0]) / te - ref) <= Fraction(slack)):
                     out.append(("int:exact-polynomial" + _region(a, b), f"n={n} [{a!r},{b!r}] degree {len(co)-1} in x/2^{e}: the first overload gives {v[0]!r}, integral = {float(ref * te)!r} (slack {slack:.3g} * 2^{e})"))
